@@ -3,6 +3,7 @@ package main
 import (
 	"fmt"
 	"reflect"
+	"strings"
 
 	"verifharness/docs"
 	"verifharness/gen"
@@ -205,7 +206,7 @@ func (g *navGen) expr(t reflect.Type, depth int) *gen.Expr {
 var c18Operands = []string{"Strs", "Flts", "Ins", "PIns", "In", "PIn", "In.Tags", "In.Nums", "In.Leaves", "In.PLeaves", "Grid", "ID", "Count", "On", "Any", "In.Leaf", "In.PLeaf", "@", "Ins[0]", "PIns[0]", "`null`", "`[1,2]`", "'s'"}
 
 func c18(r *mon.Run) {
-	r.Rule = "equivalence: documents of a Go struct family (leaf structs; nodes holding leaves by value and by nil / non-nil pointer; non-nil typed slices of structs, pointers (with nil entries), strings, float64, [][]float64; an interface{} field; roots by value, by pointer, as typed slices and inside a generic map) x type-guided seeded navigational expressions (field access in both capitalisations, indices, slices, flatten, list and filter projections with leaf comparisons, multi-select, || && !, pipes, length) plus every field path of depth <= 2: " +
+	r.Rule = "equivalence: documents of a Go struct family (leaf structs; nodes holding leaves by value and by nil / non-nil pointer; non-nil typed slices of structs, pointers (with nil entries), strings, float64, [][]float64; an interface{} field; roots by value, by pointer, as typed slices and inside a generic map) x type-guided seeded navigational expressions (field access in both capitalisations, indices, slices, flatten, list and filter projections with leaf comparisons, multi-select, || && !, pipes, length) plus every field path of depth <= 2, plus multi-selects whose first entry is a field of another struct of the family behind every projection kind over every typed slice, plus indices -9…8 on every typed slice: " +
 		"JSON-normalised Search(e, goDoc) must equal JSON-normalised Search(e, ToGeneric(goDoc)) (the generic path of the same build, itself judged by C01/C02/C07/C08). Embedded structs (by value, by nil / set pointer, two levels; own fields shadowing promoted ones declared before and after the embed; a name promoted twice) x field access, projections, filters and multi-selects over every field name, against the model on the encoding/json form. Safety: every built-in function with typed slices, structs and pointers in every argument position, hostile trees, embedded / unexported-field documents: no panic. " +
 		"Non-trivial = distinct (expression, document) whose generic result is non-null; cases traversing a nil pointer are counted separately."
 	r.Floor = 1000
@@ -362,6 +363,80 @@ func c18(r *mon.Run) {
 				t.Nontrivial("odd:" + expr)
 			}
 		}}
+	// names that are fields of *another* struct of the family (null on both forms) in first position of a
+	// multi-select behind every projection kind over every typed slice, and indices far outside the slice
+	slicePaths := []string{"Ins", "PIns", "Strs", "Flts", "Grid", "In.Leaves", "In.PLeaves", "In.Tags", "In.Nums", "PIn.Leaves", "Any"}
+	projKinds := []gen.Step{gen.StListStar(), gen.StFlatten(), gen.StFilter(gen.Current()), gen.StSliceS("1", "", ""), gen.StSliceS("", "", "-1")}
+	own := []string{"Name", "S", "Num", "F"}
+	FN := docs.StructFieldNames
+	nff := len(slicePaths) * len(projKinds) * len(FN) * len(own) * 2
+	pathSteps := func(p string, lower bool) []gen.Step {
+		var st []gen.Step
+		for _, part := range strings.Split(p, ".") {
+			st = append(st, gen.StField(docs.KeyName(part, lower)))
+		}
+		return st
+	}
+	ffw := mon.Workload{Name: "foreign-fields-in-multi-selects", N: nff,
+		Do: func(i int, t *mon.Tally) {
+			k := i
+			hash := k%2 == 1
+			k /= 2
+			o := own[k%len(own)]
+			k /= len(own)
+			f := FN[k%len(FN)]
+			k /= len(FN)
+			pk := projKinds[k%len(projKinds)]
+			sp := slicePaths[k/len(projKinds)%len(slicePaths)]
+			lower := i%3 == 1
+			form := i % 4
+			st := pathSteps(sp, lower)
+			if form >= 2 {
+				st = append([]gen.Step{gen.StIndex(0)}, st...)
+			}
+			st = append(st, pk)
+			ff, oo := gen.Field(docs.KeyName(f, lower)), gen.Field(docs.KeyName(o, lower))
+			if hash {
+				st = append(st, gen.StMultiHash([]gen.Key{{Name: "x"}, {Name: "y"}}, []*gen.Expr{ff, oo}))
+			} else {
+				st = append(st, gen.StMultiList(ff, oo))
+			}
+			goDoc := docs.StructDoc(gen.DeriveN(r.Seed, "c18ffdoc", i%11), form)
+			c18Equiv(r, t, "foreign-fields-in-multi-selects", i, gen.Chain(nil, st...), goDoc, lower, false)
+		}}
+	idxs := []int64{-9, -6, -5, -4, -3, -2, -1, 0, 1, 2, 3, 4, 5, 8}
+	nfi := len(slicePaths) * len(idxs) * 4 * 4
+	fiw := mon.Workload{Name: "far-indices-on-typed-slices", N: nfi,
+		Do: func(i int, t *mon.Tally) {
+			k := i
+			shape := k % 4
+			k /= 4
+			form := k % 4
+			k /= 4
+			ix := idxs[k%len(idxs)]
+			sp := slicePaths[k/len(idxs)%len(slicePaths)]
+			lower := i%5 == 2
+			st := pathSteps(sp, lower)
+			if form >= 2 {
+				st = append([]gen.Step{gen.StIndex(0)}, st...)
+			}
+			var tree *gen.Expr
+			switch shape {
+			case 0:
+				tree = gen.Chain(nil, append(st, gen.StIndex(ix))...)
+			case 1:
+				tree = gen.Chain(nil, append(st, gen.StIndex(ix), gen.StField(docs.KeyName("Name", lower)))...)
+			case 2:
+				tree = gen.Or(gen.Chain(nil, append(st, gen.StIndex(ix))...), gen.Raw("none"))
+			default:
+				tree = gen.Chain(nil, append(st, gen.StListStar(), gen.StIndex(ix))...)
+			}
+			if form >= 2 && shape == 3 {
+				tree = gen.Chain(nil, gen.StIndex(ix), gen.StField(docs.KeyName("ID", lower))) // the root itself is a typed slice
+			}
+			goDoc := docs.StructDoc(gen.DeriveN(r.Seed, "c18fidoc", i%11), form)
+			c18Equiv(r, t, "far-indices-on-typed-slices", i, tree, goDoc, lower, false)
+		}}
 	// embedded structs: a name means what Go's selector rules say (own field over promoted one wherever it is
 	// declared, shallowest wins, a name promoted twice at one depth is no field, nothing is promoted through a
 	// nil embedded pointer). encoding/json flattens embedded structs by the same rules, so the JSON form of
@@ -443,7 +518,7 @@ func c18(r *mon.Run) {
 			t.Nontrivial("anon:" + expr)
 			t.Count("anonymous / local struct type cases agreeing with the JSON form")
 		}}
-	r.Exec(eq, paths, oddw, emb, anon, safety, hostile)
+	r.Exec(eq, paths, oddw, ffw, fiw, emb, anon, safety, hostile)
 }
 
 func pickKey(operand string) string {
